@@ -33,7 +33,7 @@ pub fn build_ops(rng: &mut Rng, n: usize) -> Vec<Op> {
 }
 
 fn cfg_for(rng: &mut Rng, n: usize) -> HistCfg {
-    HistCfg { hk: [0u8, 1, 2, 3, 3, 4][rng.usize_below(6)], cap0: [None, Some(0), Some(1), Some(n), Some(2 * n + 2)][rng.usize_below(5)], max: 1 << 40, universe: (n as u32 + 2).max(3), events: 0, extreme: false }
+    HistCfg { hk: [0u8, 1, 2, 3, 3, 4, 5, 6, 7][rng.usize_below(9)], cap0: [None, Some(0), Some(1), Some(n), Some(2 * n + 2)][rng.usize_below(5)], max: 1 << 40, universe: (n as u32 + 2).max(3), events: 0, extreme: false }
 }
 
 /// what a program may do with a cache after an iterator over it has gone away
